@@ -54,15 +54,18 @@ TargetOf(a, src, tgt) ==
     [] OTHER -> src
 
 Init ==
-  /\ \E c \in 1..Len(Cls), bi \in 1..Len(Batches), s \in 1..2, t \in 1..2, d \in 1..2, a \in 1..Len(Actions) :
+  /\ \E c \in 1..Len(Cls), bi \in 1..Len(Batches), s \in 1..2, t \in 1..2, d \in 1..2, a \in 1..Len(Actions), sw \in 0..1 :
        /\ (Cls[c] = "TransPerm" => Batches[bi] = <<>>)
        /\ ((c + bi + a) % NParts = Part)
-       /\ (Tier = "quick" => ((c + a + s + t + d + bi) % 3 = 0))
+       /\ (Tier = "quick" => ((c + a + s + t + d + bi + sw) % 3 = 0 \/ (Cls[c] \in {"Identity", "Zero"} /\ sw = 1)))
        /\ (Actions[a] \in {"to_dtype", "type"} \/ t = 1)
        \* permutation operators carry no floating data: their dtype attribute is a fixed float32 label
        /\ (Cls[c] \in {"Perm", "TransPerm"} => (s = 1 /\ Actions[a] \notin {"to_dtype", "type", "double", "float"}))                          \* the target only matters for to / type
        /\ desc = [cls |-> Cls[c], b |-> Batches[bi], src |-> Dts[s], tgt |-> Dts[t], default |-> Dts[d], action |-> Actions[a],
-                  id |-> ((((c * 4 + bi) * 2 + s) * 2 + t) * 2 + d) * 16 + a, seed |-> c * 13 + bi * 5]
+                  \* switch = 1: floating arguments with an implicit dtype are constructed under the default dtype, and torch's default
+                  \* dtype is switched to the other one between construction and the action
+                  switch |-> sw,
+                  id |-> (((((c * 4 + bi) * 2 + s) * 2 + t) * 2 + d) * 16 + a) * 2 + sw, seed |-> c * 13 + bi * 5]
   /\ term = <<>> /\ done = FALSE
 
 Emit ==
